@@ -41,6 +41,7 @@ RULE = ('Hypothesis-generated cases = (1-3 cache actors out of load / include (r
         'generated headers using GObject/GLib types run cold/warm/cache-disabled. non-trivial = a store\'s '
         'rename/copy step falls between a load\'s open and its last step, or a source rewrite falls between a parse '
         'and the corresponding store; distinct = hash of the case')
+RULE = RULE + ' ' + "'garbage' entries are foreign content or the valid entry damaged in the middle (unknown protocol byte, non-UTF-8 byte inside a pickled name)."
 ASSUMPTIONS = [
     'interleaving granularity = one system-call-like step (open, stat, read chunk, write chunk, close, rename, '
     'unlink, listdir, mkstemp; cross-fs move = open src, open/truncate dst, copy chunks, close, utime+chmod by path, '
